@@ -100,7 +100,7 @@ func labelsFromBytes(buf []byte) ([]string, error) {
 	var (
 		labels          = make([]string, 0)
 		pos, oldPos     int
-		label           string
+		label           []byte
 		handlingPointer bool
 	)
 
@@ -108,18 +108,17 @@ func labelsFromBytes(buf []byte) ([]string, error) {
 		if pos >= len(buf) {
 			// interpret label without trailing zero-length byte as a partial
 			// domain name field as per RFC 4704 Section 4.2
-			if label != "" {
-				labels = append(labels, label)
+			if len(label) > 0 {
+				labels = append(labels, string(label))
 			}
 
 			break
 		}
 		length := int(buf[pos])
 		pos++
-		var chunk string
 		if length == 0 {
-			labels = append(labels, label)
-			label = ""
+			labels = append(labels, string(label))
+			label = label[:0]
 			if handlingPointer {
 				pos = oldPos
 				handlingPointer = false
@@ -140,11 +139,12 @@ func labelsFromBytes(buf []byte) ([]string, error) {
 			if pos+length > len(buf) {
 				return nil, ErrBufferTooShort
 			}
-			chunk = string(buf[pos : pos+length])
-			if label != "" {
-				label += "."
+			// Accumulate in a byte slice: string concatenation copied the whole
+			// name again for every label.
+			if len(label) > 0 {
+				label = append(label, '.')
 			}
-			label += chunk
+			label = append(label, buf[pos:pos+length]...)
 			pos += length
 		}
 	}
